@@ -137,6 +137,10 @@ def parse_output(text):
         res["status"] = "fail"
         if "Status: ERROR" in text or "CBMC failed" in text or "out of memory" in text.lower():
             res["status"] = "error"
+        elif not res["failed_checks"]:
+            # FAILED without a single failed check: the back end died (memory, signal) after printing
+            # partial results. Never a verdict.
+            res["status"] = "error"
     if re.search(r"error(\[E\d+\])?: ", text) and "VERIFICATION:-" not in text:
         res["status"] = "build_error"
     return res
